@@ -129,7 +129,12 @@ where
                 };
                 let plen = prefix.len();
                 let mut ch = Chooser::new(prefix, prefix_n);
-                body(&mut ch);
+                // a panic in the body must not leave the other workers waiting forever
+                if let Err(p) = std::panic::catch_unwind(std::panic::AssertUnwindSafe(|| body(&mut ch))) {
+                    let msg = p.downcast_ref::<&str>().map(|s| s.to_string()).or_else(|| p.downcast_ref::<String>().cloned()).unwrap_or_else(|| "panic".into());
+                    *diverged.lock().unwrap() = Some(format!("the execution body panicked: {msg} (choices so far {:?})", ch.choices()));
+                    capped.store(true, Ordering::Relaxed);
+                }
                 if let Some(d) = ch.diverged.take() {
                     *diverged.lock().unwrap() = Some(d);
                     capped.store(true, Ordering::Relaxed);
